@@ -2,6 +2,7 @@
   Lemmas for C14 (model: PS/Model/Dsl.lean, spec: PS/Spec/Dsl.lean).
 -/
 import PS.Spec.Dsl
+import Mathlib.Data.List.Forall2
 namespace PS.Dsl
 open PS Ty
 
@@ -653,5 +654,237 @@ theorem wf_applySubst (σ : String → Ty) (t : Ty) :
         exact ih k hk (hw.2 k hk) (fun q hq => h q (List.mem_flatMap.mpr ⟨k, hk, hq⟩))
       · have hi' : isInnerL l = false := by simpa using hi
         simpa [hv', hi'] using hw
+
+/-! ### the loop over the type variables = one simultaneous substitution -/
+
+/-- the substitutions of the loop, one variable after the other -/
+def unifyAll (pairs : List (String × Ty)) (t : Ty) : Ty :=
+  pairs.foldl (fun t p => unify p.1 p.2 t) t
+
+theorem unifyAll_ground (pairs : List (String × Ty)) (t : Ty) (h : polys t = []) : unifyAll pairs t = t := by
+  induction pairs with
+  | nil => rfl
+  | cons p ps ih => simp only [unifyAll, List.foldl_cons, unify_of_ground _ _ _ h] at ih ⊢; exact ih
+
+theorem unifyAll_node (pairs : List (String × Ty)) (hg : ∀ p ∈ pairs, polys p.2 = []) (l : TyL) (ks : List Ty) :
+    unifyAll pairs (.node l ks) =
+      if isVarL l then (match AList.lookup l.name pairs with | some v => v | none => .node l ks)
+      else if isInnerL l then .node l (ks.map (unifyAll pairs)) else .node l ks := by
+  induction pairs generalizing ks with
+  | nil =>
+    have hid : ks.map (unifyAll []) = ks := by
+      conv => rhs; rw [← List.map_id ks]
+      apply List.map_congr_left; intro k _; rfl
+    rw [hid]
+    show Tree.node l ks = _
+    simp [AList.lookup]
+  | cons p ps ih =>
+    obtain ⟨n, v⟩ := p
+    have hg' : ∀ p ∈ ps, polys p.2 = [] := fun p hp => hg p (List.mem_cons_of_mem _ hp)
+    have hstep : ∀ t, unifyAll ((n, v) :: ps) t = unifyAll ps (unify n v t) := fun t => rfl
+    rw [hstep, unify_node]
+    by_cases hv : isVarL l = true
+    · simp only [hv, if_true]
+      by_cases hn : l.name = n
+      · subst hn
+        simp only [if_true, AList.lookup]
+        exact unifyAll_ground ps v (hg (l.name, v) (by simp))
+      · have hn' : ¬ n = l.name := fun e => hn e.symm
+        simp only [hn, if_false, AList.lookup, hn']
+        rw [ih hg' ks]
+        simp [hv]
+    · have hv' : isVarL l = false := by simpa using hv
+      by_cases hi : isInnerL l = true
+      · simp only [hv', hi, if_true, Bool.false_eq_true, if_false]
+        rw [ih hg']
+        simp only [hv', hi, if_true, Bool.false_eq_true, if_false, List.map_map]
+        congr 1
+      · have hi' : isInnerL l = false := by simpa using hi
+        simp only [hv', hi', Bool.false_eq_true, if_false]
+        rw [ih hg']
+        simp [hv', hi']
+
+theorem unifyAll_eq_applySubst (pairs : List (String × Ty)) (hg : ∀ p ∈ pairs, polys p.2 = [])
+    (σ : String → Ty) (t : Ty) :
+    (∀ q ∈ polys t, AList.lookup q.label.name pairs = some (σ q.label.name)) →
+      unifyAll pairs t = applySubst σ t := by
+  induction t using Ty.ind_aux with
+  | h l ks ih =>
+    intro h
+    rw [polys_node] at h
+    rw [unifyAll_node pairs hg, applySubst_node]
+    by_cases hv : isVarL l = true
+    · simp only [hv, if_true, List.mem_singleton, forall_eq] at h ⊢
+      have h' : AList.lookup l.name pairs = some (σ l.name) := h
+      rw [h']
+    · have hv' : isVarL l = false := by simpa using hv
+      by_cases hi : isInnerL l = true
+      · simp only [hv', hi, if_true, Bool.false_eq_true, if_false] at h ⊢
+        congr 1
+        apply List.map_congr_left
+        intro k hk
+        exact ih k hk (fun q hq => h q (List.mem_flatMap.mpr ⟨k, hk, hq⟩))
+      · have hi' : isInnerL l = false := by simpa using hi
+        simp [hv', hi']
+
+/-- the test of dsl.py for one variable name and one candidate -/
+def Ok (U : List Ty) (bound : Nat) (V : List Ty) (n : String) (v : Ty) : Prop :=
+  v ∈ U ∧ admissible V n v = true ∧ Ty.size v ≤ bound
+
+theorem mem_instVar (U : List Ty) (bound : Nat) (V insts : List Ty) (q t' : Ty) :
+    t' ∈ instVar U bound V insts q ↔
+      ∃ v, Ok U bound V q.label.name v ∧ ∃ i ∈ insts, t' = unify q.label.name v i := by
+  unfold instVar Ok
+  rw [mem_dedup, List.mem_flatMap]
+  constructor
+  · rintro ⟨v, hv, ht⟩
+    rw [List.mem_filter] at hv
+    rw [List.mem_map] at ht
+    obtain ⟨i, hi, e⟩ := ht
+    simp only [Bool.and_eq_true, decide_eq_true_eq] at hv
+    exact ⟨v, ⟨hv.1, hv.2.1, hv.2.2⟩, i, hi, e.symm⟩
+  · rintro ⟨v, ⟨h1, h2, h3⟩, i, hi, e⟩
+    refine ⟨v, ?_, ?_⟩
+    · rw [List.mem_filter]
+      simp only [Bool.and_eq_true, decide_eq_true_eq]
+      exact ⟨h1, h2, h3⟩
+    · rw [List.mem_map]; exact ⟨i, hi, e.symm⟩
+
+theorem mem_foldl_instVar (U : List Ty) (bound : Nat) (V : List Ty) (vars insts : List Ty) (t' : Ty) :
+    t' ∈ vars.foldl (instVar U bound V) insts ↔
+      ∃ i ∈ insts, ∃ pairs : List (String × Ty),
+        List.Forall₂ (fun q p => p.1 = q.label.name ∧ Ok U bound V p.1 p.2) vars pairs ∧
+        t' = unifyAll pairs i := by
+  induction vars generalizing insts with
+  | nil =>
+    simp only [List.foldl_nil]
+    constructor
+    · intro h; exact ⟨t', h, [], List.Forall₂.nil, rfl⟩
+    · rintro ⟨i, hi, pairs, hf, e⟩
+      cases hf
+      simpa [e, unifyAll] using hi
+  | cons q vars ih =>
+    simp only [List.foldl_cons]
+    rw [ih]
+    constructor
+    · rintro ⟨i', hi', pairs, hf, e⟩
+      rw [mem_instVar] at hi'
+      obtain ⟨v, hok, i, hi, e'⟩ := hi'
+      refine ⟨i, hi, (q.label.name, v) :: pairs, List.Forall₂.cons ⟨rfl, hok⟩ hf, ?_⟩
+      rw [e, e']; rfl
+    · rintro ⟨i, hi, pairs, hf, e⟩
+      cases hf with
+      | cons hp hf' =>
+        rename_i p ps
+        obtain ⟨n, v⟩ := p
+        obtain ⟨hn, hok⟩ := hp
+        simp only at hn hok
+        subst hn
+        refine ⟨unify q.label.name v i, ?_, ps, hf', ?_⟩
+        · rw [mem_instVar]; exact ⟨v, hok, i, hi, rfl⟩
+        · rw [e]; rfl
+
+theorem lookup_of_forall₂ (R : String → Ty → Prop) (vars : List Ty) (pairs : List (String × Ty))
+    (hf : List.Forall₂ (fun q p => p.1 = q.label.name ∧ R p.1 p.2) vars pairs) (n : String)
+    (hn : ∃ q ∈ vars, q.label.name = n) : ∃ v, AList.lookup n pairs = some v ∧ R n v := by
+  induction vars generalizing pairs with
+  | nil => obtain ⟨q, hq, _⟩ := hn; cases hq
+  | cons q0 vars ih =>
+    cases hf with
+    | @cons _ p0 _ ps hp hf' =>
+      obtain ⟨pn, pv⟩ := p0
+      obtain ⟨h1, h2⟩ := hp
+      simp only at h1 h2
+      by_cases e : pn = n
+      · subst e
+        exact ⟨pv, by simp [AList.lookup], h2⟩
+      · obtain ⟨q', hq', hqn⟩ := hn
+        rcases List.mem_cons.mp hq' with e' | hq''
+        · subst e'; exact absurd (h1.trans hqn) e
+        · obtain ⟨v, hv, hr⟩ := ih ps hf' ⟨q', hq'', hqn⟩
+          exact ⟨v, by simp [AList.lookup, e, hv], hr⟩
+
+theorem values_of_forall₂ (R : String → Ty → Prop) (vars : List Ty) (pairs : List (String × Ty))
+    (hf : List.Forall₂ (fun q p => p.1 = q.label.name ∧ R p.1 p.2) vars pairs) :
+    ∀ p ∈ pairs, R p.1 p.2 := by
+  induction hf with
+  | nil => intro p hp; cases hp
+  | cons hp _ ih =>
+    intro p' hp'
+    rcases List.mem_cons.mp hp' with e | h
+    · subst e; exact hp.2
+    · exact ih p' h
+
+theorem lookup_map_name (σ : String → Ty) (vars : List Ty) (n : String) (hn : ∃ q ∈ vars, q.label.name = n) :
+    AList.lookup n (vars.map (fun q => (q.label.name, σ q.label.name))) = some (σ n) := by
+  induction vars with
+  | nil => obtain ⟨q, hq, _⟩ := hn; cases hq
+  | cons q vars ih =>
+    simp only [List.map_cons, AList.lookup]
+    by_cases e : q.label.name = n
+    · simp [e]
+    · simp only [e, if_false]
+      obtain ⟨q', hq', hqn⟩ := hn
+      rcases List.mem_cons.mp hq' with e' | hq''
+      · subst e'; exact absurd hqn e
+      · exact ih ⟨q', hq'', hqn⟩
+
+/-- **the variable loop.** With a ground universe `U`, the instantiated types of `τ` are
+    exactly the simultaneous substitutions of its variables by candidates that every
+    variable of that name accepts. -/
+theorem mem_instType (U : List Ty) (hU : ∀ u ∈ U, polys u = []) (bound : Nat) (τ t' : Ty) :
+    t' ∈ instType U bound τ ↔
+      ∃ σ : String → Ty,
+        (∀ q ∈ polys τ, σ q.label.name ∈ U ∧ Ty.size (σ q.label.name) ≤ bound ∧
+          canBe q (σ q.label.name) = true) ∧ t' = applySubst σ τ := by
+  unfold instType
+  simp only
+  rw [mem_foldl_instVar]
+  constructor
+  · rintro ⟨i, hi, pairs, hf, e⟩
+    rw [List.mem_singleton] at hi
+    subst hi
+    have hval := values_of_forall₂ _ _ _ hf
+    have hg : ∀ p ∈ pairs, polys p.2 = [] := fun p hp => hU _ (hval p hp).1
+    have hlook := lookup_of_forall₂ _ _ _ hf
+    refine ⟨fun n => (AList.lookup n pairs).getD Ty.unknown, ?_, ?_⟩
+    · intro q hq
+      obtain ⟨v, hv, hok⟩ := hlook q.label.name ⟨q, mem_dedup.mpr hq, rfl⟩
+      simp only [hv, Option.getD_some]
+      refine ⟨hok.1, hok.2.2, ?_⟩
+      have := hok.2.1
+      unfold admissible at this
+      rw [List.all_eq_true] at this
+      simpa using this q (mem_dedup.mpr hq)
+    · rw [e]
+      apply unifyAll_eq_applySubst pairs hg
+      intro q hq
+      obtain ⟨v, hv, _⟩ := hlook q.label.name ⟨q, mem_dedup.mpr hq, rfl⟩
+      simp [hv]
+  · rintro ⟨σ, hσ, e⟩
+    refine ⟨τ, List.mem_singleton.mpr rfl, (dedup (polys τ)).map (fun q => (q.label.name, σ q.label.name)), ?_, ?_⟩
+    · rw [List.forall₂_map_right_iff]
+      apply List.forall₂_same.mpr
+      intro q hq
+      have hq' := mem_dedup.mp hq
+      refine ⟨rfl, (hσ q hq').1, ?_, (hσ q hq').2.1⟩
+      unfold admissible
+      rw [List.all_eq_true]
+      intro q' hq''
+      by_cases hn : q'.label.name = q.label.name
+      · have := (hσ q' (mem_dedup.mp hq'')).2.2
+        rw [hn] at this
+        simp [this]
+      · simp [hn]
+    · rw [e]
+      symm
+      apply unifyAll_eq_applySubst
+      · intro p hp
+        rw [List.mem_map] at hp
+        obtain ⟨q, hq, e'⟩ := hp
+        subst e'
+        exact hU _ (hσ q (mem_dedup.mp hq)).1
+      · intro q hq
+        exact lookup_map_name σ _ _ ⟨q, mem_dedup.mpr hq, rfl⟩
 
 end PS.Dsl
